@@ -129,7 +129,8 @@ def run_isolated(binary, cases, per_case_timeout=20, mem_kb=3000000):
     def one(line):
         cid = case_id(line)
         try:
-            p = subprocess.run(["sh", "-c", "ulimit -v %d; exec %s" % (mem_kb, binary)], input=line + "\n",
+            lim = "ulimit -s unlimited 2>/dev/null; " if binary == MODEL_BIN else "ulimit -v %d; " % mem_kb
+            p = subprocess.run(["sh", "-c", lim + "exec " + binary], input=line + "\n",
                                stdout=subprocess.PIPE, stderr=subprocess.PIPE, text=True, timeout=per_case_timeout)
         except subprocess.TimeoutExpired:
             hung.append(cid)
